@@ -730,6 +730,21 @@ def exclusive_container_specs():
     return out
 
 
+def private_name_as_outer_input_specs():
+    """Directed shape: a nested graph keeps a value PRIVATE (produced and consumed inside, hidden by its selection) whose
+    name is also a plain INPUT of the enclosing graph, read there by another node. The outer input feeds the outer
+    reader only; the inner consumer gets the value from its inner producer."""
+    def fn(name, params, out):
+        return {"k": "fn", "name": name, "params": [{"n": p} for p in params], "outs": [out]}
+
+    out = []
+    for inner_first in (True, False):
+        inner = {"k": "sub", "name": "inner", "prog": {"name": "inner", "nodes": [fn("mk_b", ["q"], "b"), fn("use_b", ["b"], "c")], "bind": {}, "select": ["c"]}}
+        root = fn("root_use", ["b", "c"], "r")
+        out.append({"name": "privin", "nodes": [inner, root] if inner_first else [root, inner], "bind": {}})
+    return out
+
+
 def run(ctx):
     n = 400 if ctx.tier == "quick" else 9000
     core.WARM_P = 0.0
@@ -762,7 +777,7 @@ def run(ctx):
         if (f"{inst}/clean", f"{inst}/tokenize") not in set(flat.edges()):
             ctx.violation("C20:flat-inner-edge-missing", f"the same Graph nested twice: instance {inst} lacks its inner edge clean -> tokenize in to_flat_graph()", {"program": "same graph nested twice"})
     ctx.case({"directed": "same-graph-twice"}, True)
-    directed = (shadowed_substring_specs() + colliding_id_specs() + exclusive_container_specs()) if ctx.shard[0] == 0 else []
+    directed = (shadowed_substring_specs() + colliding_id_specs() + exclusive_container_specs() + private_name_as_outer_input_specs()) if ctx.shard[0] == 0 else []
     for i in range(n + len(directed)):
         spec = directed[i - n] if i >= n else gen_viz_graph(ctx.rng)
         rt.reset_program()
